@@ -197,7 +197,7 @@ Definition psnd {A C2} (Q : C2 -> Prop) (x : A * C2) : Prop := Q (snd x).
 Ltac bstep :=
   match goal with
   | |- grel _ _ _ _ (Ok _) (Ok _) =>
-    apply gr_ok; first [assumption | split; [reflexivity | cbn [snd]; assumption]]
+    apply gr_ok; try first [assumption | split; [reflexivity | cbn [snd]; assumption]]
   | |- grel _ _ _ _ (Err _) (Err _) => apply gr_err
   | |- grel _ _ _ _ (Panic _) (Panic _) => apply gr_panic
   | |- grel _ _ _ _ OutOfFuel OutOfFuel => apply gr_fuel
@@ -225,7 +225,8 @@ Ltac bcall lem :=
   [ eapply lem; eassumption
   | let x1 := fresh "x" in let x2 := fresh "x" in let HP := fresh "HP" in
     intros x1 x2 HP;
-    try (destruct x1 as [? ?], x2 as [? ?], HP as [? ?]; cbn [fst snd] in *; subst);
+    try (match type of x1 with (_ * _)%type => idtac end;
+         destruct x1 as [? ?], x2 as [? ?], HP as [? ?]; cbn [fst snd] in *; subst);
     cbv beta iota
   | ].
 
